@@ -230,4 +230,50 @@ theorem cutDepthL_zero : ∀ (ts : List Tree) (d : Nat), cutDepthL 0 d ts = ts
   | t :: ts, d => by simp [cutDepthL, cutDepth_zero t, cutDepthL_zero ts]
 end
 
+/-! ### the record, spelled out (no two requested keys coincide) -/
+
+/-- the fixed entries of a record: path (rows only), name, parent name — each only when its key is given -/
+def fixedEntries (o : Opts) (sep : Char) (anc : List Str) (t : Tree) : Rec :=
+  (if o.pathCol ≠ [] then [(o.pathCol, Val.str (pathName sep anc t.name))] else []) ++
+  (if o.nameKey ≠ [] then [(o.nameKey, Val.str t.name)] else []) ++
+  (if o.parentKey ≠ [] then [(o.parentKey, parentVal anc)] else [])
+
+theorem foldl_dset_fresh {α : Type} (f : α → Str × Val) : ∀ (l : List α) (r : Rec),
+    ((l.map fun x => (f x).1)).Nodup → (∀ x ∈ l, (f x).1 ∉ r.map Prod.fst) →
+    l.foldl (fun acc x => dset acc (f x).1 (f x).2) r = r ++ l.map f := by
+  intro l
+  induction l with
+  | nil => intro r _ _; simp
+  | cons x xs ih =>
+    intro r hn hd
+    simp only [List.map_cons, List.nodup_cons] at hn
+    rw [List.foldl_cons, dset_append_of_not_mem r _ _ (hd x (by simp)), ih _ hn.2]
+    · simp
+    · intro y hy
+      simp only [List.map_append, List.map_cons, List.map_nil, List.mem_append, List.mem_singleton, not_or]
+      exact ⟨hd y (by simp [hy]), fun e => hn.1 (e ▸ List.mem_map.mpr ⟨y, hy, rfl⟩)⟩
+
+theorem record_fixed (o : Opts) (sep : Char) (anc : List Str) (t : Tree)
+    (hn : ((fixedEntries o sep anc t).map Prod.fst).Nodup) :
+    record o sep anc t = addAttrs o t.attrs (fixedEntries o sep anc t) := by
+  unfold record fixedEntries at *
+  by_cases h1 : o.pathCol = [] <;> by_cases h2 : o.nameKey = [] <;> by_cases h3 : o.parentKey = [] <;>
+    simp only [h1, h2, h3, ne_eq, not_true_eq_false, not_false_eq_true, if_true, if_false, List.append_nil,
+      List.nil_append, dset] at hn ⊢
+  · simp only [List.singleton_append, List.map_cons, List.map_nil, List.nodup_cons, List.mem_singleton] at hn
+    have : ¬ o.nameKey = o.parentKey := hn.1
+    simp [this]
+  · simp only [List.singleton_append, List.map_cons, List.map_nil, List.nodup_cons, List.mem_singleton] at hn
+    have : ¬ o.pathCol = o.parentKey := hn.1
+    simp [this]
+  · simp only [List.singleton_append, List.map_cons, List.map_nil, List.nodup_cons, List.mem_singleton] at hn
+    have : ¬ o.pathCol = o.nameKey := hn.1
+    simp [this]
+  · simp only [List.cons_append, List.nil_append, List.map_cons, List.map_nil, List.nodup_cons,
+      List.mem_cons, not_or] at hn
+    have a : ¬ o.pathCol = o.nameKey := hn.1.1
+    have b : ¬ o.pathCol = o.parentKey := hn.1.2.1
+    have c : ¬ o.nameKey = o.parentKey := hn.2.1.1
+    simp [dset, a, b, c]
+
 end Export
